@@ -74,10 +74,11 @@ def run_mutant(args: tuple[str, dict, str]) -> dict:
             if text.count(e["old"]) != 1:
                 return {"id": m["id"], "status": "skipped", "why": f"site selector matches {text.count(e['old'])} times in {e['file']}"}
             text = text.replace(e["old"], e["new"])
-            try:
-                compile(text, str(p), "exec")
-            except SyntaxError as exc:
-                return {"id": m["id"], "status": "broken-mutant", "why": str(exc)}
+            if str(p).endswith(".py"):
+                try:
+                    compile(text, str(p), "exec")
+                except SyntaxError as exc:
+                    return {"id": m["id"], "status": "broken-mutant", "why": str(exc)}
             p.write_text(text)
         code, ev, out = _run(pid, root)
         if code == 2:
